@@ -42,6 +42,9 @@ func c08Programs() []c08Prog {
 		m(`summarize count() by a | where count>1`), m(`put b:=a+1 | summarize sum(b) by k`), m(`cut k | summarize count() by k`),
 		m(`fork (=> where a==1 | count() => where a==2 | count())`), m(`summarize c:=count() by k | summarize sum(c)`),
 		m(`head 1 | count()`), m(`tail 1 | count()`), m(`uniq -c | count()`),
+		// groups keyed on an order-preserving function of the pool key: a group can span
+		// objects that different scan workers read (indices 34..36, used by the controlled part)
+		m(`summarize count() by k:=floor(k)`), m(`summarize c:=count(), s:=sum(a) by k:=round(k)`), m(`summarize count() by k:=ceil(k) | sort k`),
 	}
 }
 
@@ -60,6 +63,11 @@ func c08Pools() []c08Pool {
 			c08Pool{"many-small-objects " + ord, []lk.Op{{Kind: "createpool", Pool: "p", Key: "k:" + ord, Thresh: 1, Stride: 1}, ld("p", "main", b1), ld("p", "main", b2), ld("p", "main", b3)}},
 			c08Pool{"three-overlapping-objects " + ord, []lk.Op{{Kind: "createpool", Pool: "p", Key: "k:" + ord}, ld("p", "main", b1), ld("p", "main", b2), ld("p", "main", b3)}},
 		)
+	}
+	// disjoint objects whose keys share floor/round/ceil buckets across object boundaries
+	d1, d2, d3 := `{k:1.1,a:1,s:"x"} {k:1.2,a:2,s:"y"}`, `{k:1.6,a:1,s:"x"} {k:2.4,a:3,s:"y"}`, `{k:2.6,a:2,s:"x"} {k:3.1,a:1,s:"z"} {k:3.2,a:1,s:"z"}`
+	for _, ord := range []string{"asc", "desc"} {
+		out = append(out, c08Pool{"disjoint-objects-sharing-buckets " + ord, []lk.Op{{Kind: "createpool", Pool: "p", Key: "k:" + ord}, ld("p", "main", d1), ld("p", "main", d2), ld("p", "main", d3)}})
 	}
 	return out
 }
@@ -171,6 +179,14 @@ func TestC08(t *testing.T) {
 			}
 		}
 	}
+	for _, pi := range []int{34, 35, 17} {
+		for _, pl := range []int{4, 5} {
+			scs = append(scs, sc{pl, pi, 2})
+			if rep.Thorough() {
+				scs = append(scs, sc{pl, pi, 3})
+			}
+		}
+	}
 	tmp, err := os.MkdirTemp("", "verif-c08-")
 	if err != nil {
 		t.Fatal(err)
@@ -223,7 +239,7 @@ func TestC08(t *testing.T) {
 	run.Set("scheduled_transitions", transitions)
 	run.Set("evaluations", cases+execs)
 	run.Set("exhaustive", exhaustive)
-	run.Set("rule", "free-running: 34 programs after 'from p' (order-preserving operators, sorts, aggregations incl. those decomposed into partials, fork, head/tail/uniq under count) x 4 pools (many one-value objects / three overlapping objects, ascending / descending, with null, missing and mixed-type keys, duplicate keys across objects) x parallelism {2,3,8,16} (thorough 3 repeats) compared with parallelism 1: same multiset, and the same key sequence where the program defines an order. Controlled schedules: for 6 representative programs x pools, the parallel query runs in a synctest bubble with every storage read of every scan worker as a gate; all schedules within a bound of deviations from first-in-canonical-order are executed and each compared with parallelism 1")
+	run.Set("rule", "free-running: 37 programs after 'from p' (order-preserving operators, sorts, aggregations incl. those decomposed into partials, fork, head/tail/uniq under count) x 6 pools (many one-value objects / three overlapping objects / three disjoint objects whose float keys share floor, round and ceil buckets across object boundaries; ascending / descending, with null, missing and mixed-type keys, duplicate keys across objects) x parallelism {2,3,8,16} (thorough 3 repeats) compared with parallelism 1: same multiset, and the same key sequence where the program defines an order. Controlled schedules: for 6 representative programs x the overlapping pools and 3 grouping programs x the disjoint pools, the parallel query runs in a synctest bubble with every storage read of every scan worker as a gate; all schedules within a bound of deviations from first-in-canonical-order are executed and each compared with parallelism 1")
 	run.Assume("goroutine schedules are controlled at storage reads only (which worker obtains which object and the arrival order at combine/merge follow from them); preemption inside the runtime's channel operations is exercised by the free-running runs, not enumerated")
 }
 
